@@ -3,7 +3,7 @@
 // Contracts for package server: the pipelining queue of a pending answer (C12).
 package server
 
-//@ option nolockhavoc immutable:queueCaller.aq
+//@ option nolockhavoc immutable:queueCaller.aq callbackframe:base callbackframe:qent callbackframe:answerQueue.bases
 
 // PARTIAL.  fulfill delivers queued call number i to bases[q[i].basis] and makes the result of
 // that call the target bases[i+1] (bases[0] is the answer itself).  A call pipelined on the result
@@ -20,11 +20,25 @@ package server
 // For each function only the lock typestate obligations are generated: every Lock is of a mutex
 // this call does not hold, every Unlock of one it holds, and every mutex is as on entry on return.
 
+// fulfill additionally: the drain loop delivers queued call i on base q[i].basis, which has been
+// published already (basis <= i: the representation invariant of the queue, established entry by
+// entry by queueCaller.PipelineRecv#nextbase and ASSUMED here as a precondition), never calls a
+// receive function that was not assigned, and publishes the result of call i as base i+1 - so
+// that after the loop every base has its receive function.
 //@ func answerQueue.fulfill
 //@   props C12
 //@   locktypestate
-//@   partial lock
+//@   partial lock bounds nilfunc
 //@   requires aq != nil && nolocks()
+//@   requires wfq: forall(0, len(aq.q), func(k int) bool { return 0 <= aq.q[k].basis && aq.q[k].basis <= k })
+//@   loop 0 "range aq.bases"
+//@     invariant onlyheld(&aq.mu) && len(aq.bases) == len(q)+1
+//@     invariant forall(0, len(q), func(k int) bool { return 0 <= q[k].basis && q[k].basis <= k })
+//@   loop 1 "range q"
+//@     invariant nolocks() && len(aq.bases) == len(q)+1 && len(embargoes) == len(q)
+//@     invariant published: forall(0, rangeidx+1, func(k int) bool { return aq.bases[k].recv != nil })
+//@   loop 2 "range embargoes"
+//@     invariant nolocks() && len(embargoes) == len(q)
 
 //@ func answerQueue.reject
 //@   props C12
